@@ -118,4 +118,89 @@ example : Name.WF (Name.ofValue 0x8123456789ABCDEF) := name_ofValue_wf _
 example : ∃ n, Name.ofFields 1 2 3 4 5 6 7 8 9 = some n := ⟨_, rfl⟩
 example : MessageId.can_id (MessageId.ofFields 6 0xFECA 0x21) = 0x18FECA21 := by decide
 
+/-! ### the order used in arbitration -/
+
+/-- the number a little-endian byte list denotes -/
+def leVal : List Nat → Nat
+  | [] => 0
+  | x :: xs => x + 256 * leVal xs
+
+/-- "less" decided from the MOST significant byte down (the list is little-endian: the tail holds the higher bytes) -/
+def msbLess : List Nat → List Nat → Prop
+  | x :: xs, y :: ys => msbLess xs ys ∨ (xs = ys ∧ x < y)
+  | _, _ => False
+
+theorem leVal_inj (a b : List Nat) (hl : a.length = b.length) (ha : ∀ x ∈ a, x < 256) (hb : ∀ x ∈ b, x < 256)
+    (h : leVal a = leVal b) : a = b := by
+  induction a generalizing b with
+  | nil => cases b with
+    | nil => rfl
+    | cons y ys => simp at hl
+  | cons x xs ih =>
+    cases b with
+    | nil => simp at hl
+    | cons y ys =>
+      simp only [leVal] at h
+      have hx := ha x (List.mem_cons_self ..)
+      have hy := hb y (List.mem_cons_self ..)
+      have h1 : x = y := by omega
+      have h2 : leVal xs = leVal ys := by omega
+      rw [h1, ih ys (by simpa using hl) (fun z hz => ha z (List.mem_cons_of_mem _ hz)) (fun z hz => hb z (List.mem_cons_of_mem _ hz)) h2]
+
+theorem leVal_lt_iff (a b : List Nat) (hl : a.length = b.length) (ha : ∀ x ∈ a, x < 256) (hb : ∀ x ∈ b, x < 256) :
+    leVal a < leVal b ↔ msbLess a b := by
+  induction a generalizing b with
+  | nil => cases b with
+    | nil => simp [leVal, msbLess]
+    | cons y ys => simp at hl
+  | cons x xs ih =>
+    cases b with
+    | nil => simp at hl
+    | cons y ys =>
+      have hx := ha x (List.mem_cons_self ..)
+      have hy := hb y (List.mem_cons_self ..)
+      have hxs : ∀ z ∈ xs, z < 256 := fun z hz => ha z (List.mem_cons_of_mem _ hz)
+      have hys : ∀ z ∈ ys, z < 256 := fun z hz => hb z (List.mem_cons_of_mem _ hz)
+      have hl' : xs.length = ys.length := by simpa using hl
+      have := ih ys hl' hxs hys
+      simp only [leVal, msbLess]
+      constructor
+      · intro h
+        by_cases hlt : leVal xs < leVal ys
+        · exact Or.inl (this.mp hlt)
+        · have he : leVal xs = leVal ys := by omega
+          exact Or.inr ⟨leVal_inj xs ys hl' hxs hys he, by omega⟩
+      · rintro (h | ⟨he, hlt⟩)
+        · have := this.mpr h; omega
+        · rw [he]; omega
+
+theorem leVal_le64 (v : Nat) (h : v < 18446744073709551616) : leVal (le64 v) = v := by
+  simp only [le64, leVal]; omega
+
+theorem le64_bytes (v : Nat) : ∀ x ∈ le64 v, x < 256 := by
+  intro x hx
+  simp only [le64, List.mem_cons, List.not_mem_nil, or_false] at hx
+  rcases hx with rfl | rfl | rfl | rfl | rfl | rfl | rfl | rfl <;> omega
+
+/-- ARBITRATION ORDER: for any two NAMEs, the order of their 64-bit values is the order of their 8 bytes compared from the
+    MOST significant byte (byte 8, index 7) down — never the order of the byte lists as transmitted (least significant
+    byte first) -/
+theorem c15_name_order_is_msb_first (a b : Name) (wa : Name.WF a) (wb : Name.WF b) :
+    Name.value a < Name.value b ↔ msbLess (Name.bytes a) (Name.bytes b) := by
+  generalize hva : Name.value a = va
+  generalize hvb : Name.value b = vb
+  have ha : va < 18446744073709551616 := by
+    obtain ⟨_, _, _, _, _, _, _, _, _, _⟩ := wa
+    rw [name_value_arith] at hva; omega
+  have hb : vb < 18446744073709551616 := by
+    obtain ⟨_, _, _, _, _, _, _, _, _, _⟩ := wb
+    rw [name_value_arith] at hvb; omega
+  rw [name_bytes_eq, name_bytes_eq, hva, hvb]
+  have := leVal_lt_iff (le64 va) (le64 vb) (by simp only [le64, List.length_cons, List.length_nil]) (le64_bytes _) (le64_bytes _)
+  rw [leVal_le64 _ ha, leVal_le64 _ hb] at this
+  exact this
+
+/-- … and the transmitted order really is a different relation: these two values compare one way as numbers and the
+    other way as byte lists from the front -/
+example : (1 : Nat) * 2^56 + 9 < 2 * 2^56 + 3 ∧ ¬ (le64 (1 * 2^56 + 9) < le64 (2 * 2^56 + 3)) := by decide
 end J1939.Props.C15
